@@ -72,7 +72,7 @@ def gen_case(run_seed, tier):
     else:
         n0 = sz.choice([64, 100, 128, 200])
         length = sz.randint(6, 20)
-    init = sz.choice(["zero", "plus", "one", "graph"])
+    init = sz.choice(["zero", "plus", "one", "graph", "arrays"])
     api = sz.choice(["func", "func", "stab", "mixed"])
     kinds = ["g1", "g2", "mz", "mcopy", "reset", "swap", "ins", "addq", "rem", "tensor", "ptrace"]
     w = {"g1": 8, "g2": 6, "mz": 2, "mcopy": 1, "reset": 1.5, "swap": 1.5, "ins": 1.5, "addq": 0.7, "rem": 1.5, "tensor": 0.7, "ptrace": 0.7}
@@ -138,10 +138,24 @@ def initial_tableau(case):
         return sfc.create_n_plus_state(n)
     if case["init"] == "one":
         return sfc.create_n_ket1_state(n)
+    rng = random.Random(case["gseed"])
+    if case["init"] == "arrays":
+        # a tableau handed over as raw arrays CliffordTableau(table, phase): taken from a short random gate prefix
+        base = sfc.create_n_ket0_state(n)
+        for _ in range(min(3 * n, 40)):
+            q = rng.randrange(n)
+            g = rng.choice(["H", "P", "X", "Z", "CNOT"])
+            if g == "CNOT":
+                if n < 2:
+                    continue
+                t = rng.choice([i for i in range(n) if i != q])
+                base = tr.cnot_gate(base, q, t)
+            else:
+                base = G1[g](base, q)
+        return CliffordTableau(np.array(base.table), phase=np.array(base.phase))
     import networkx as nx
     from graphiq.backends.stabilizer.functions.rep_conversion import get_clifford_tableau_from_graph
 
-    rng = random.Random(case["gseed"])
     g = nx.Graph()
     g.add_nodes_from(range(n))
     p = rng.choice([0.2, 0.5, 0.8]) if n <= 32 else 3.0 / n
